@@ -194,6 +194,7 @@ fn dev_ev(case: &Value, out: &mut Vec<Value>) {
     let mut o = case.as_object().unwrap().clone();
     o.insert("ev".into(), json!("dev"));
     let (l1, l2) = (lay_of(case, "lay1", &shape), lay_of(case, "lay2", &shape));
+    let alias = jstr(case, "alias", "");
     macro_rules! measures { ($x:expr, $y:expr, $toi:expr, $tof:expr, $mv:expr) => {{
         let (x, y) = ($x, $y);
         let f = |r: Result<Result<f64, ndarray_stats::errors::MultiInputError>, ()>, sq: bool| -> Value { match r { Ok(Ok(v)) => quant(if sq { v * v } else { v }, qe), Ok(Err(_)) => json!(ERR_Q), Err(()) => json!(ERR_Q) } };
@@ -234,12 +235,39 @@ fn dev_ev(case: &Value, out: &mut Vec<Value>) {
         o.insert("same".into(), measures!(va.clone(), va.to_owned(), toi, 0, mv));
         o.insert("S".into(), json!(4));
     }}; }
+    // two different views of ONE buffer starting at the same element (the case says how b is derived from a's buffer)
+    macro_rules! alias_ty { ($t:ty, $mk:expr, $toi:expr, $mv:expr, $s:expr) => {{
+        let base: Vec<$t> = jints(&case["base"]).iter().map(|&v| $mk(v)).collect();
+        let toi = $toi;
+        if alias == "t" {
+            let k = (base.len() as f64).sqrt() as usize;
+            let m = Array2::from_shape_vec((k, k), base).unwrap();
+            o.insert("fwd".into(), measures!(m.view(), m.t(), toi, 0, $mv));
+            o.insert("swp".into(), measures!(m.t(), m.view(), toi, 0, $mv));
+            o.insert("same".into(), measures!(m.view(), m.view(), toi, 0, $mv));
+        } else {
+            let m = Array1::from(base);
+            let h = m.len() / 2;
+            let (va, vb) = (m.slice(ndarray::s![..h]), m.slice(ndarray::s![..2 * h;2]));
+            o.insert("fwd".into(), measures!(va.clone(), vb.clone(), toi, 0, $mv));
+            o.insert("swp".into(), measures!(vb.clone(), va.clone(), toi, 0, $mv));
+            o.insert("same".into(), measures!(va.clone(), va.clone(), toi, 0, $mv));
+        }
+        o.insert("S".into(), json!($s));
+    }}; }
+    if !alias.is_empty() {
+        match ty {
+            "f64" => alias_ty!(f64, |v: i64| v as f64 / 4.0, |v: f64, pow: i32| -> Value { quant(v, if pow == 2 { 4 } else { 2 }) }, maxv as f64 / 4.0, 4),
+            _ => alias_ty!(i64, |v: i64| v, |v: i64, _p: i32| -> Value { json!(v) }, maxv, 1),
+        }
+    } else {
     match ty {
         "i32" => int_ty!(i32),
         "i64" => int_ty!(i64),
         "bigint" => int_ty!(num_bigint::BigInt),
         "f32" => float_ty!(f32),
         _ => float_ty!(f64),
+    }
     }
     o.insert("shape".into(), json!(shape));
     out.push(Value::Object(o));
@@ -312,8 +340,12 @@ pub fn gen(seed: u64, count: usize, tier: &str, params: &Params) -> Vec<Value> {
                 let shape = random_shape(&mut rng, n);
                 let (lay1, lay2) = two_lays(&mut rng, &shape);
                 let rmax = if ty == "u8" { 10 } else { 40 };
-                let r: Vec<i64> = (0..n).map(|_| match stat { "harmonic" => rng.range(1, 8), "geometric" => if f32ty { rng.range(-40, 40) } else { rng.range(-300, 300) },
+                let gstyle = rng.below(4);
+                let glim: i64 = if f32ty { 40 } else { 300 };
+                let mut r: Vec<i64> = (0..n).map(|_| match stat { "harmonic" => rng.range(1, 8),
+                                                               "geometric" => match gstyle { 1 => rng.range(glim - glim / 5, glim), 2 => rng.range(-glim, -glim + glim / 5), _ => rng.range(-glim, glim) },
                                                                _ => if ty == "u8" { rng.range(0, rmax) } else { rng.range(-rmax, rmax) } }).collect();
+                if stat == "geometric" && gstyle == 3 { r.sort(); r.reverse(); }
                 let axis = rng.below(shape.len() as u64) as usize;
                 let wl = if stat.ends_with("_axis") { shape[axis] } else { n };
                 let mut w: Vec<i64> = (0..wl).map(|_| rng.range(0, 4)).collect();
@@ -369,6 +401,22 @@ pub fn gen(seed: u64, count: usize, tier: &str, params: &Params) -> Vec<Value> {
                 let sexp = if ty == "f32" { *rng.pick(&[1i64, 10, 40, -30]) } else { *rng.pick(&[1i64, 20, 200, 400, -300]) };
                 cases.push(json!({"ev": "corr", "ty": ty, "rows": rows, "S": 1, "d": rng.range(0, 2), "bexp": if ty == "f32" { -1 } else { *rng.pick(&[-1i64, -1, 10, 20]) },
                                   "qe": 6, "tol": 2, "k": rng.below(nv as u64), "sexp": sexp, "lay1": lay.to_json()}));
+            }
+            "dev" if rng.chance(1, 6) => {
+                // the two operands are different views of one buffer that start at the same element
+                if rng.chance(1, 2) {
+                    let k = rng.range(2, 3) as usize;
+                    let base: Vec<i64> = (0..k * k).map(|_| rng.range(-12, 12)).collect();
+                    let a = base.clone();
+                    let b: Vec<i64> = (0..k * k).map(|t| base[(t % k) * k + t / k]).collect();
+                    cases.push(json!({"ev": "dev", "ty": *rng.pick(&["i64", "f64"]), "alias": "t", "base": base, "a": a, "b": b, "qe": 8, "tol": 2, "maxv": 4, "shape": [k, k]}));
+                } else {
+                    let h = rng.range(2, 5) as usize;
+                    let base: Vec<i64> = (0..2 * h).map(|_| rng.range(-12, 12)).collect();
+                    let a: Vec<i64> = base[..h].to_vec();
+                    let b: Vec<i64> = (0..h).map(|t| base[2 * t]).collect();
+                    cases.push(json!({"ev": "dev", "ty": *rng.pick(&["i64", "f64"]), "alias": "step", "base": base, "a": a, "b": b, "qe": 8, "tol": 2, "maxv": 4, "shape": [h]}));
+                }
             }
             "dev" => {
                 let n = rng.range(1, if big { 16 } else { 9 }) as usize;
